@@ -561,6 +561,131 @@ class Inliner:
             folded += 1
         return folded
 
+    def _thread_known_variants(self, body, max_chain=16):
+        """Jump threading for `x = Enum::V(..); ...straight line...; match x {..}`: when a helper that *returns* an enum
+        (what woke the loop, why the loop ended) is spliced into the caller that matches on it, every construction site
+        reaches the match through a chain of single-successor blocks. The chain is duplicated for that site and ends in a
+        goto to the arm of V, so the arm's code is control-dependent on the construction site again - exactly the shape
+        the code had before the enum was introduced. Only chains without calls and yields are duplicated (no call site
+        or suspension point is ever copied); the values are untouched."""
+        import copy
+        blocks = body["blocks"]
+        nvar = {a["def"]: len(a.get("variants") or []) for a in self.d.get("adts", [])}
+        nvar.update({"std::option::Option": 2, "std::result::Result": 2})
+        # locals written other than by whole-local assignments are left alone
+        tainted = set(range(0, body.get("arg_count", 0) + 1))
+        for blk in blocks:
+            for st in blk["stmts"]:
+                if st["k"] == "assign":
+                    rv = st["rv"]
+                    if st["place"]["p"] and not any(e == "*" for e in st["place"]["p"]):
+                        tainted.add(st["place"]["l"])
+                    if ("ref" in rv and rv.get("mut")) or "rawptr" in rv:
+                        src = rv.get("ref") or rv.get("rawptr")
+                        if not any(e == "*" for e in src["p"]):
+                            tainted.add(src["l"])
+            t = blk["term"]
+            if t["k"] == "call" and not t["dest"]["p"]:
+                tainted.add(t["dest"]["l"])
+            if t["k"] == "yield" and not t["resume_arg"]["p"]:
+                tainted.add(t["resume_arg"]["l"])
+        # switch blocks: J -> (X, index of the `d = discriminant(X)` statement)
+        joins = {}
+        for j, blk in enumerate(blocks):
+            t = blk["term"]
+            if t["k"] != "switch":
+                continue
+            dl = t["discr"].get("move") or t["discr"].get("copy")
+            if dl is None or dl["p"]:
+                continue
+            for i, st in enumerate(blk["stmts"]):
+                if st["k"] == "assign" and not st["place"]["p"] and st["place"]["l"] == dl["l"] and isinstance(st["rv"].get("discr"), dict) and not st["rv"]["discr"].get("p"):
+                    x = st["rv"]["discr"]["l"]
+                    if x not in tainted and all(not (s2["k"] == "assign" and not s2["place"]["p"] and s2["place"]["l"] in (x, dl["l"])) for s2 in blk["stmts"][i + 1:]):
+                        joins[j] = x
+        if not joins:
+            return 0
+
+        def single_succ(t):
+            if t["k"] in ("goto", "false_edge", "false_unwind", "drop"):
+                return t.get("target")
+            return None
+        threaded = 0
+        n0 = len(blocks)
+
+        wrapped = {}
+
+        def flow(stmts, alias):
+            """Follows `y = move x` for x in alias - also through `w = Poll::Ready(move x)` ... `y = move (w as Ready).0`,
+            which is how the value returned by a spliced-in async helper reaches the caller; False if a member is
+            overwritten otherwise."""
+            for s2 in stmts:
+                if s2["k"] != "assign" or s2["place"]["p"]:
+                    continue
+                rv2 = s2["rv"]
+                dst = s2["place"]["l"]
+                src = (rv2["use"].get("move") or rv2["use"].get("copy")) if "use" in rv2 else None
+                if src is not None and not src["p"] and src["l"] in alias:
+                    alias.add(dst)
+                elif src is not None and src["l"] in wrapped and len(src["p"]) == 2 and isinstance(src["p"][0], dict) and src["p"][0].get("name") == wrapped[src["l"]] and src["p"][1] == 0:
+                    alias.add(dst)
+                elif rv2.get("agg") == "adt" and len(rv2.get("ops", [])) == 1 and ((rv2["ops"][0].get("move") or rv2["ops"][0].get("copy") or {}).get("l") in alias) \
+                        and not (rv2["ops"][0].get("move") or rv2["ops"][0].get("copy"))["p"]:
+                    wrapped[dst] = rv2["variant"]
+                elif dst in alias or dst in wrapped:
+                    return False
+            return True
+        for a in range(n0):
+            blk = blocks[a]
+            sites = [(i, st) for i, st in enumerate(blk["stmts"]) if st["k"] == "assign" and not st["place"]["p"] and st["place"]["l"] not in tainted
+                     and st["rv"].get("agg") == "adt" and st["rv"].get("adt") in nvar and nvar[st["rv"]["adt"]] > 1 and "vidx" in st["rv"]]
+            if not sites:
+                continue
+            i, st = sites[-1]
+            alias = {st["place"]["l"]}
+            wrapped.clear()
+            if not flow(blk["stmts"][i + 1:], alias):
+                continue
+            chain, cur = [], single_succ(blk["term"])
+            ok = cur is not None
+            while ok and len(chain) <= max_chain:
+                if cur in joins and joins[cur] in alias:
+                    break
+                b2 = blocks[cur]
+                nxt = single_succ(b2["term"])
+                if nxt is None or cur in chain or not flow(b2["stmts"], alias):
+                    ok = False
+                    break
+                chain.append(cur)
+                cur = nxt
+            if not ok or len(chain) > max_chain or cur not in joins or cur == a or any(l in tainted for l in alias):
+                continue
+            j = cur
+            jt = blocks[j]["term"]
+            vidx = st["rv"]["vidx"]
+            if any(int(v) >= nvar[st["rv"]["adt"]] for v, _ in jt["arms"]):
+                continue
+            tgt = jt["otherwise"]
+            for v, b2 in jt["arms"]:
+                if int(v) == vidx:
+                    tgt = b2
+            # duplicate chain + the statements of J, ending in a goto to the arm
+            new_ids = {}
+            for c in chain + [j]:
+                new_ids[c] = len(blocks)
+                nb = copy.deepcopy(blocks[c])
+                nb["threaded_from"] = c
+                blocks.append(nb)
+            for c in chain:
+                nb = blocks[new_ids[c]]
+                nxt = single_succ(nb["term"])
+                nb["term"]["target"] = new_ids[nxt]
+            blocks[new_ids[j]]["term"] = {"k": "goto", "target": tgt, "span": jt["span"], "folded": True}
+            first = chain[0] if chain else j
+            blk["term"]["target"] = new_ids[first]
+            threaded += 1
+        return threaded
+
     # -------- driver
     def run(self):
         bodies = self.d["bodies"]
@@ -596,6 +721,7 @@ class Inliner:
                     i += 1
                 if touched:
                     self._fold_const_switches(body)
+                    self._thread_known_variants(body)
                     self._blank_unreachable(body)
             if not changed:
                 break
